@@ -124,7 +124,21 @@ func init() {
 			if tier == "quick" {
 				p["nonEmpty"] = "yes" // quick: literals non-empty (the empty literal is covered by the thorough tier and by C03/C04)
 			}
-			return templateJobs("H_c05", corpusFor(tier, nil), p)
+			jobs := templateJobs("H_c05", corpusFor(tier, nil), p)
+			// the class placeholders also apply where selective mode redacts (a literal under a matching
+			// field name): the typed value forms of the corpus through the selective-mode harness
+			pat := `^(ssn|email|phoneNumber)$`
+			for _, sp := range corpusFor(tier, func(t tplSpec) bool {
+				n := t.Name[strings.LastIndex(t.Name, "/")+1:]
+				return !t.Tags["search"] && !strings.Contains(strings.ToLower(t.Name), "search") && (n == "bin" || n == "date" || n == "oid" || n == "email")
+			}) {
+				tpl, err := ParseTemplate("L0", sp.Text)
+				if err != nil {
+					panic(err)
+				}
+				jobs = append(jobs, &Job{Name: sp.Name + "~selective", Harness: "H_c14", Lines: map[string]*Template{"L0": tpl}, Params: map[string]string{"regexp": pat}})
+			}
+			return jobs
 		},
 		Functions: walkerFunctions, Witness: []string{"emitted"},
 		Bounds:      treeBounds("encrypt mode; selective mode"),
